@@ -262,6 +262,11 @@ pub fn eval_node<F: FnMut(&GraphColoredVertices, &str)>(
                         steady_states,
                         progress_callback,
                     );
+                    // The set computed for the child is only meaningful inside the restricted universe.
+                    // Sub-results that are not computed from the restricted graph (wild-card sets, cached
+                    // results, propositions, precomputed steady states) may exceed it, so the restriction
+                    // has to be enforced here, before the variable is quantified away.
+                    let child_eval = child_eval.intersect(restricted_graph.unit_colored_vertices());
                     progress_callback(
                         &empty_set,
                         &format!("Evaluating operator `{op}` with restricted domain `{domain}`."),
